@@ -67,6 +67,35 @@ def split_evenly(items, n):
 
 
 # ------------------------------------------------------------------ zones
+_TZ_TABLE = None
+
+
+def tz_table():
+    """[(name, {'regex': compiled, 'offset': timedelta})] in the library's matching order.  Taken from the library's loaded
+    table; if that internal was renamed or moved, rebuilt here from the zone definitions (timezone_info_list, read as data)
+    the way the definitions describe themselves: every regex pattern x every zone, plus the listed alternate spellings."""
+    global _TZ_TABLE
+    if _TZ_TABLE is None:
+        try:
+            from dateparser.timezone_parser import _tz_offsets
+
+            _TZ_TABLE = list(_tz_offsets)
+        except Exception:
+            import regex as re
+            from dateparser.timezones import timezone_info_list
+
+            out = []
+            for info in timezone_info_list:
+                for rx in info["regex_patterns"]:
+                    for name, off in info["timezones"]:
+                        out.append((name, {"regex": re.compile(rx % name, re.IGNORECASE), "offset": timedelta(seconds=off)}))
+                        for repl, replw in info.get("replace", []):
+                            out.append((name, {"regex": re.compile(re.sub(repl, replw, rx % name), re.IGNORECASE),
+                                               "offset": timedelta(seconds=off)}))
+            _TZ_TABLE = out
+    return _TZ_TABLE
+
+
 def zone_pools():
     """(single_iana, single_abbr, dual) as lists of names.
 
@@ -75,7 +104,8 @@ def zone_pools():
     dual        : names known to both pytz and the table (two defensible readings)."""
     import pytz
     from dateparser.timezones import timezone_info_list
-    from dateparser.timezone_parser import _tz_offsets
+
+    _tz_offsets = tz_table()
 
     table_names = []
     for info in timezone_info_list:
@@ -101,10 +131,8 @@ def zone_pools():
 def table_offset_of(name):
     """Offset (timedelta) the library's table gives for an abbreviation/offset spelling,
     read from the table as data: first matching entry wins."""
-    from dateparser.timezone_parser import _tz_offsets
-
     s = " %s" % name
-    for n, info in _tz_offsets:
+    for n, info in tz_table():
         if info["regex"].search(s):
             return info["offset"]
     return None
